@@ -374,6 +374,10 @@ def to_z3(v, t=None):
             t = ('tuple', tuple(type_of_value(x) for x in v))
         return sort_of(t).mk(*[to_z3(x, tx) for x, tx in zip(v, t[1])])
     if isinstance(v, SDotted):
+        # a free name (module object, or - in fragment mode - a local assigned outside the fragment) is an opaque constant; it
+        # cannot be stored where an int/str/... is expected (was: z3 sort-mismatch crash, i.e. CHECKER-ERROR instead of undecided)
+        if t is not None and t != 'U' and sort_of(t) != U:
+            raise Undecided('free name %s used where a value of type %r is expected: it is not an input of the contract (assigned outside the verified fragment?)' % (v.name, t))
         return z3.Const('const_' + v.name, U)
     if v is None:
         return z3.Const('const_None', U)
@@ -1972,8 +1976,14 @@ class Engine:
         t = ta if ta == tb else ('real' if {ta, tb} <= {'int', 'real'} else ('int' if {ta, tb} <= {'int', 'bool'} else None))
         if t is None and 'U' in (ta, tb) and (isinstance(a, (str, SDotted)) or a is None or isinstance(b, (str, SDotted)) or b is None):
             t = 'U'  # an opaque value or a string literal / None / enum member (interned constants of the opaque sort)
+            if any(not (isinstance(x, (str, SDotted)) or x is None or (isinstance(x, z3.ExprRef) and x.sort() == U)) for x in (a, b)):
+                t = None  # `n if c else None` with an int n: the int has no encoding in the opaque sort (was: z3 sort-mismatch crash)
         if t is None:
-            raise Undecided('conditional expression with branches of different types')
+            if getattr(self, 'in_spec', False):
+                raise Undecided('conditional expression with branches of different types')
+            # branches of different types cannot be merged into one term: split the path on the condition (as for branches
+            # that call something), each alternative keeps the Python value of its branch
+            raise Fork(node, [('ifexp-then', c, 'ifexp', True), ('ifexp-else', z3.Not(c), 'ifexp', False)])
         return from_z3(z3.If(c, to_z3(a, t), to_z3(b, t)), t)
 
     def ev_Compare(self, node, st):
